@@ -309,7 +309,7 @@ func MultiRunner0(mk func(tier string) ([]engine.Scenario, []string, []engine.Co
 var PowerVectors = [][]int64{{10, 10, 10}, {1, 1, 1}, {1, 1}, {34, 33, 33}, {50, 30, 20}, {50, 25, 25}, {66, 34}, {65, 35}, {2, 1, 1, 1}, {10}}
 
 func init() {
-	Register("C02", MultiRunner(func(tier string) ([]MultiCase, []string) {
+	c02base := MultiRunner(func(tier string) ([]MultiCase, []string) {
 		var cases []MultiCase
 		depth, dl := 4, 40*time.Second
 		if tier == "thorough" {
@@ -334,6 +334,45 @@ func init() {
 			"deposit events only (effects are C03's matter), one chain, 2 event nonces x 2 conflicting variants; signer kinds: validator account, its orchestrator, a stranger account",
 			"staking is a scripted table; SetPower/Unbond/Rebond may happen between any two transactions (over-approximates x/staking, whose changes land at its EndBlocker, which runs before mhub2's)",
 			"oracle is evaluated with exact integers: 100*sum(power of distinct bonded voters at tally) >= 66*total",
+			"second part: the application as wired in app.go (real x/staking, x/slashing, x/evidence) explored over application hashes like C05's second part; after every block the vote records of ethereum are read from the committed store: a vote that appeared in the block comes from a validator that was bonded when the block started, nobody is recorded twice, an event applied in the block has distinct voters with at least 66% of the bonded power the block left behind",
 		}
-	}))
+	})
+	Register("C02", func(tier string) *Runner {
+		b := c02base(tier)
+		return &Runner{Replay: func(t string, seed int, ops []engine.Op) []engine.Violation {
+			if len(ops) > 0 && strings.HasPrefix(ops[0].Kind, "App:") {
+				return appReplay(ops, c02AppObserver)
+			}
+			return b.Replay(t, seed, ops)
+		}, Run: func(o RunOpts) Output {
+			out := b.Run(o)
+			if len(out.Violations) > 0 || out.InternalError != "" {
+				return out
+			}
+			cov, found := appSearch(o.Tier, o.Workers, c02AppObserver)
+			cov["application_votes_checked"] = c02AppStats.VotesSeen
+			cov["application_events_applied_and_checked"] = c02AppStats.Applied
+			if c, ok := out.Evidence["coverage"].(map[string]interface{}); ok {
+				for k, v := range cov {
+					c[k] = v
+				}
+			}
+			if found != nil {
+				n := 0
+				for i := 0; i < 5; i++ {
+					if len(appReplay(found.Path, c02AppObserver)) > 0 {
+						n++
+					}
+				}
+				found.Reproduced = n
+				if n == 5 {
+					out.Violations = append(out.Violations, *found)
+				} else {
+					out.InternalError = fmt.Sprintf("application path %v failed once and %d of 5 times when replayed", found.Path, n)
+				}
+			}
+			out.Summary += fmt.Sprintf(" app_transitions=%v app_votes_checked=%v app_events_applied=%v", cov["application_transitions"], cov["application_votes_checked"], cov["application_events_applied_and_checked"])
+			return out
+		}}
+	})
 }
